@@ -93,11 +93,14 @@ func VPH_pathChain() {
 	t0, t1 := vpMkOID('t', 0), vpMkOID('t', 1)
 	c0, g0 := vpMkOID('c', 0), vpMkOID('g', 0)
 	m.kind[b0], m.kind[b1], m.kind[t0], m.kind[t1], m.kind[c0], m.kind[g0] = "blob", "blob", "tree", "tree", "commit", "tag"
+	// directory names may contain or end in ':' (git allows any byte but NUL and '/')
+	dir := []string{"d", "notes:", "x:y"}[vp_Choice("dirname", 3)]
 	m.entries[t1] = map[string]git.OID{"f": b1}
-	m.entries[t0] = map[string]git.OID{"a": b0, "d": t1}
+	m.entries[t0] = map[string]git.OID{"a": b0, dir: t1}
 	m.treeOf[c0] = t0
 	m.target[g0] = c0
 	m.names = map[string]git.OID{"refs/heads/m": c0, "HEAD": c0, "refs/tags/v": g0, "refs/tags/t": t0, "refs/tags/s": t1, "refs/tags/b": b1}
+	subRoot := "HEAD:" + dir
 
 	mkTree := func(ents [][2]interface{}) []byte {
 		var d []byte
@@ -115,7 +118,7 @@ func VPH_pathChain() {
 	}
 	treeData := map[git.OID][]byte{
 		t1: mkTree([][2]interface{}{{"f", b1}}),
-		t0: mkTree([][2]interface{}{{"a", b0}, {"d", t1}}),
+		t0: mkTree([][2]interface{}{{"a", b0}, {dir, t1}}),
 	}
 
 	type root struct {
@@ -125,9 +128,14 @@ func VPH_pathChain() {
 	}
 	roots := []root{
 		{"refs/heads/m", c0, true}, {"refs/tags/v", g0, true}, {"refs/tags/t", t0, true}, {"HEAD^{tree}", t0, false},
-		{"HEAD:d", t1, false}, {"refs/tags/b", b1, true}, {"refs/tags/s", t1, true},
+		{subRoot, t1, false}, {"refs/tags/b", b1, true}, {"refs/tags/s", t1, true},
 	}
 	r := roots[vp_Choice("root", len(roots))]
+	// optionally a second root (references are processed before ROOT arguments, in this order)
+	var r2 *root
+	if k := vp_Choice("second-root", len(roots)+1); k < len(roots) && roots[k].name != r.name {
+		r2 = &roots[k]
+	}
 
 	// reachable set from the root
 	need := map[git.OID]bool{}
@@ -149,6 +157,9 @@ func VPH_pathChain() {
 		}
 	}
 	walk(r.oid)
+	if r2 != nil {
+		walk(r2.oid)
+	}
 
 	g := NewGraph(NameStyleFull)
 	s0, s1 := vp_U32("s0"), vp_U32("s1")
@@ -180,6 +191,12 @@ func VPH_pathChain() {
 		g.RegisterReference(git.Reference{Refname: r.name, OID: r.oid}, nil)
 	}
 	g.pathResolver.RecordName(r.name, r.oid)
+	if r2 != nil {
+		if r2.isRef {
+			g.RegisterReference(git.Reference{Refname: r2.name, OID: r2.oid}, nil)
+		}
+		g.pathResolver.RecordName(r2.name, r2.oid)
+	}
 	hs := g.HistorySize()
 
 	check := func(what string, p *Path, kind string) {
